@@ -450,7 +450,7 @@ func (c *Ctx) connEffectsOf(fn *ssa.Function, seen map[*ssa.Function]*connEffect
 			if fv, _ := fieldOf(t.Addr); fv != nil {
 				if _, ok := pc[fv]; ok {
 					e.stores[fv] = true
-					if _, isMk := t.Val.(*ssa.MakeChan); isMk {
+					if c.freshChan(t.Val, 0) {
 						if fv == c.A.In {
 							e.makesIn = true
 						}
@@ -513,10 +513,8 @@ func (c *Ctx) mustMakeQueue(fn *ssa.Function, fv *types.Var, seen map[*ssa.Funct
 
 func (c *Ctx) makesQueueAt(in ssa.Instruction, fv *types.Var, seen map[*ssa.Function]bool) bool {
 	if s, ok := in.(*ssa.Store); ok {
-		if _, isMk := s.Val.(*ssa.MakeChan); isMk {
-			if f, _ := fieldOf(s.Addr); f == fv {
-				return true
-			}
+		if f, _ := fieldOf(s.Addr); f == fv && c.freshChan(s.Val, 0) {
+			return true
 		}
 		return false
 	}
@@ -1172,6 +1170,8 @@ func (c *Ctx) releaseCensus(rule string) ([]*ssa.Function, *Locksets, *teardownF
 			roots = append(roots, fn)
 		}
 	}
+	// the recovery hook the library installs runs in every handler's frame
+	roots = append(roots, c.libraryHooks()...)
 	region := c.Closure(roots, func(from *ssa.Function, e Edge) bool {
 		if e.Callee == a.Teardown || e.Callee == a.TeardownCore {
 			return false // post-Done tail; handled by R2
@@ -1636,6 +1636,10 @@ func runC07(c *Ctx) {
 	c.noLocksAtDispatchRule("R7")
 	c.noArmedDeadlineRule("R8")
 	c.noMemberAwaitsBackground("R9")
+	r.Rule("R10", "a reconnect from the DISCONNECTED handler keeps its queues: outside constructors, the inbound and outbound queue fields are stored only in the connect routine or in unexported helpers that every static caller chain leads back to it - the teardown (which may return after a handler has reconnected) never replaces them")
+	c.queuesReplacedAtConnectRule("R10")
+	r.Rule("R11", "registration is sent on every connection as configured: no function run on behalf of a connection (connection goroutines, teardown, built-in handlers, and all they call) stores to a field of Config other than the client's own record Me - a password or server cleared after use is missing from every later registration")
+	c.configKeptRule("R11")
 
 	// ---- R5
 	c.goCensus("R5", tf)
@@ -2266,4 +2270,170 @@ func (c *Ctx) noMemberAwaitsBackground(rule string) {
 		r.Add(rule, "member-no-bg:"+c.FuncKey(m), c.Pos(m.Pos()), c.FuncKey(m), "a goroutine the teardown waits for does not run background handlers", bad == "", bad)
 	}
 	r.Floor(rule, "connection goroutines", n, 3)
+}
+
+// queuesReplacedAtConnectRule: C07.R10. The queues of a connection are
+// replaced only by the connect routine (and filled in by constructors): a
+// store to the inbound or outbound queue field anywhere else - the teardown
+// "re-initialising" after DISCONNECTED, say - swaps the queues under a
+// connection that a DISCONNECTED handler has already re-established.
+func (c *Ctx) queuesReplacedAtConnectRule(rule string) {
+	r, a := c.R, c.A
+	cn := a.Connect
+	memo := map[*ssa.Function]int{}
+	var only func(fn *ssa.Function, depth int) bool
+	only = func(fn *ssa.Function, depth int) bool {
+		if fn == cn {
+			return true
+		}
+		if v, ok := memo[fn]; ok {
+			return v == 1
+		}
+		memo[fn] = 1 // cycles: decided by the other callers
+		res := true
+		if depth > 5 || fn.Object() == nil || fn.Object().Exported() || addrTaken(fn) {
+			res = false
+		} else {
+			sites := c.staticCallers(fn)
+			if len(sites) == 0 {
+				res = false
+			}
+			for _, cs := range sites {
+				if _, isGo := cs.(*ssa.Go); isGo || !only(cs.Parent(), depth+1) {
+					res = false
+				}
+			}
+		}
+		if res {
+			memo[fn] = 1
+		} else {
+			memo[fn] = 2
+		}
+		return res
+	}
+	n := 0
+	for _, fn := range c.clientFuncs() {
+		funcInstrs(fn, func(in ssa.Instruction) {
+			st, ok := in.(*ssa.Store)
+			if !ok {
+				return
+			}
+			fv, _ := fieldOf(st.Addr)
+			if fv == nil || (fv != a.In && fv != a.Out) {
+				return
+			}
+			if c.underConstruction(st.Addr, fn, 0) {
+				return
+			}
+			n++
+			okS := only(fn, 0)
+			r.Add(rule, fmt.Sprintf("queue-store:%s:%s", c.FuncKey(fn), fv.Name()), c.InstrPos(st), c.FuncKey(fn), "the queues are replaced only by the connect routine", okS,
+				"store to "+fv.Name()+" in a function that runs outside the connect routine: the queues of a connection re-established from a DISCONNECTED handler are swapped away under its goroutines")
+		})
+	}
+	r.Floor(rule, "stores to the queue fields outside constructors", n, 2)
+}
+
+// configKeptRule: C07.R11. What registration reads is the caller's
+// configuration: no function run on behalf of a connection (connection
+// goroutines, the teardown, built-in handlers and all they call) stores to a
+// field of Config other than the client's own record (Me). A password or
+// server cleared "once used" is missing from the registration of every later
+// connection.
+func (c *Ctx) configKeptRule(rule string) {
+	r, a := c.R, c.A
+	cfgT := c.Named(c.Client, "Config")
+	if !r.Anchor(rule, "type Config", cfgT != nil) {
+		return
+	}
+	var roots []*ssa.Function
+	for _, f := range a.IntTable {
+		roots = append(roots, f)
+	}
+	for _, f := range a.StTable {
+		roots = append(roots, f)
+	}
+	roots = append(roots, a.Members...)
+	if a.Teardown != nil {
+		roots = append(roots, a.Teardown)
+	}
+	reach := c.Closure(roots, func(from *ssa.Function, e Edge) bool {
+		return e.Callee != a.Connect && c.InModuleFn(e.Callee)
+	})
+	n, bad := 0, 0
+	for _, fn := range reach.Order {
+		if fn.Package() != c.Client {
+			continue
+		}
+		n++
+		funcInstrs(fn, func(in ssa.Instruction) {
+			st, ok := in.(*ssa.Store)
+			if !ok {
+				return
+			}
+			fa, ok := st.Addr.(*ssa.FieldAddr)
+			if !ok {
+				return
+			}
+			pt, isP := fa.X.Type().Underlying().(*types.Pointer)
+			if !isP || !types.Identical(pt.Elem(), cfgT) {
+				return
+			}
+			fv, _ := fieldOf(fa)
+			if fv == nil || fv == a.CfgMe {
+				return
+			}
+			if c.underConstruction(fa, fn, 0) {
+				return
+			}
+			bad++
+			r.Add(rule, "config-store:"+c.FuncKey(fn)+":"+fv.Name(), c.InstrPos(st), c.FuncKey(fn), "a running connection never rewrites the configuration that the next registration reads", false,
+				"store to Config."+fv.Name()+" reached from "+c.ChainString(reach.Funcs[fn]))
+		})
+	}
+	r.Add(rule, "config-kept", "-", "", fmt.Sprintf("none of the %d functions run on behalf of a connection stores to a Config field other than the client's own record", n), bad == 0, fmt.Sprintf("%d stores", bad))
+	r.Floor(rule, "functions run on behalf of a connection", n, 25)
+}
+
+// freshChan: v is a newly made channel - a make, or the result (or one of the
+// results) of a module function every return of which hands back a newly made
+// channel in that position (a "make the queues" helper).
+func (c *Ctx) freshChan(v ssa.Value, depth int) bool {
+	if depth > 3 {
+		return false
+	}
+	switch t := v.(type) {
+	case *ssa.MakeChan:
+		return true
+	case *ssa.ChangeType:
+		return c.freshChan(t.X, depth+1)
+	case *ssa.Extract:
+		call, ok := t.Tuple.(*ssa.Call)
+		if !ok {
+			return false
+		}
+		return c.freshChanResult(call, t.Index, depth)
+	case *ssa.Call:
+		return c.freshChanResult(t, 0, depth)
+	}
+	return false
+}
+
+func (c *Ctx) freshChanResult(call *ssa.Call, idx, depth int) bool {
+	callee := call.Call.StaticCallee()
+	if callee == nil || call.Call.IsInvoke() || !c.InModuleFn(callee) || callee.Blocks == nil {
+		return false
+	}
+	n, ok := 0, true
+	funcInstrs(callee, func(in ssa.Instruction) {
+		rt, isR := in.(*ssa.Return)
+		if !isR {
+			return
+		}
+		n++
+		if idx >= len(rt.Results) || !c.freshChan(retVal(rt, idx), depth+1) {
+			ok = false
+		}
+	})
+	return ok && n > 0
 }
